@@ -4,7 +4,7 @@ from vlib import *
 import gen_ren
 
 PROP = "C17"
-MODULES = ["NeatviVerif.Props.C17"]
+MODULES = ["NeatviVerif.Props.C17", "NeatviVerif.Props.C17b"]
 REN_SRCS = ["probe_ren.c", "probe_dir.c", REPO + "/uc.c", REPO + "/sbuf.c", REPO + "/rset.c", REPO + "/regex.c", REPO + "/conf.c"]
 MODE = "ren17"
 
